@@ -1,5 +1,5 @@
 """C12 — a command that fails part-way leaves the archive intact and readable."""
-import os, random, struct
+import os, random, shutil, struct
 from vlib import cli
 from vlib.flow import Check
 from props import _update as U
@@ -208,6 +208,19 @@ def one_run(c, rnd, rid, spec):
             args = ["experimental", "acl", "set", cur, "-m", "u:root:r", victim] + strat + pwargs
         else:
             args = ["experimental", "migrate", cur, "--output", target] + strat + pwargs
+        # --output of strip / delete (the only commands that have it besides migrate): now and then it names an EXISTING
+        # file — the archive itself under another spelling, or a bystander archive next to it.  A failing run must leave
+        # both as they were (seeded C12-7: a clean-up of "the unfinished output" that removes the file at the output path)
+        outp = None
+        if cmd in ("strip", "delete") and len(arch.parts) == 1 and rnd.random() < 0.5:
+            how = rnd.choice(["dot", "abs", "other", "other"])
+            if how == "other":
+                shutil.copy(sb.path(cur), sb.path("ar", "bystander.pna"))
+                outp = "ar/bystander.pna"
+                log.append("cp %s ar/bystander.pna" % cur)
+            else:
+                outp = "./" + cur if how == "dot" else sb.path(cur)
+            args += ["--output", outp]
         nodes = [U.node(sb.root, p) for p in extra]
         before_files = {f: open(sb.path("ar", f), "rb").read() for f in os.listdir(sb.path("ar"))}
         lb, listed_b = U.pna_list(sb, arch, pw)
@@ -217,6 +230,14 @@ def one_run(c, rnd, rid, spec):
         msgs = []
         if r["timeout"] or r["rc"] == 101:
             msgs.append("%s: %s" % (cmd, "timeout" if r["timeout"] else "panic (exit 101)"))
+        if r["rc"] == 0 and outp == "ar/bystander.pna":
+            os.replace(sb.path(outp), sb.path(cur))       # the result went to the output path: the history goes on with it
+        if r["rc"] != 0:
+            gone = sorted(f for f in before_files if f not in after_files)
+            if gone:
+                msgs.append("after the failing %s (exit %s) a file that existed before is gone: ar/%s" % (cmd, r["rc"], ", ar/".join(gone)))
+            elif outp == "ar/bystander.pna" and after_files.get("bystander.pna") != before_files.get("bystander.pna"):
+                msgs.append("the failing %s (exit %s) modified the existing file at its --output path" % (cmd, r["rc"]))
         if r["rc"] == 0:
             if cmd != "append" and len(arch.parts) > 1:
                 for p in arch.parts:
